@@ -478,5 +478,24 @@ example : (match parseJournal utc sample2 with
     | some rs => (acceptJournal lax rs).isOk
     | none => false) = true := by decide
 
+/-- … and the conclusion of `roundtrip_text_divQuot` before the sort (`loadText`/`loadJournal` = sort of `acceptText`/
+    `acceptJournal`; `List.mergeSort` does not evaluate under `decide`), evaluated on it (identity layout and a CRLF layout with tabs,
+    trailing blanks and the metadata order tags / uuid / location) -/
+def crlfLayout : Layout :=
+  { indent := ['\t'], sep := [' ', '\t'], trail := [' '], eol := ['\r', '\n'], metaOrder := [2, 0, 1],
+    lead := [[' ']], gap := [[], ['\t']] }
+
+example : LayoutOK crlfLayout := by
+  refine ⟨?_, ?_, ?_, ?_, ?_, ?_, ?_, ?_, ?_, ?_⟩ <;> simp [crlfLayout, Blanks, isSpace, IsEol]
+
+set_option maxRecDepth 40000 in
+example : (match parseJournal utc sample2 with
+    | some rs => (match acceptJournal lax rs with
+        | .ok (ts, st') =>
+          decide (acceptText utc lax (printL Layout.identity divQ ts) = .ok (ts, st')) &&
+          decide (acceptText utc lax (printL crlfLayout divQ ts) = .ok (ts, st'))
+        | _ => false)
+    | none => false) = true := by decide
+
 end C06
 end Tackler
